@@ -12,11 +12,14 @@ whatever flush was executed, after `rollback` the tables are those of the last c
                         state it started from, so every continuation behaves as if it had never
                         been attempted;
 * savepoints          – releasing a savepoint is transparent (`c06_savepoint_released`); rolling
-                        one back always restores the tables (`c06_savepoint_db`) and, when nothing
-                        was flushed inside it, the whole state (`c06_savepoint_no_flush`);
-* `c06_savepoint_counterexample` – the open finding F-SP, formally: when the first versioned flush
-                        of the transaction happens inside a savepoint that is rolled back, the
-                        unit of work keeps a current transaction whose record no longer exists.
+                        one back always restores the tables (`c06_savepoint_db`);
+* `c06_savepoint_rolled_back` – a rolled-back savepoint never happened, whatever was flushed inside
+                        it: tables, committed snapshot and savepoint stack are those before the
+                        bracket, the unit of work is the one before the bracket with an empty
+                        version-object cache and no pending association statement (finding F-SP,
+                        repaired: the unit of work is remembered at SAVEPOINT and restored);
+* `c06_savepoint_fixed_example` – the history that exhibited F-SP (first versioned flush of the
+                        transaction inside a savepoint that is rolled back), now harmless.
 
 The "failure at any point of a flush" of the property is the universal quantification over `evs`
 (any prefix of any bracket is an event list).  Atomicity of the DBMS's rollback is the assumption
@@ -73,7 +76,7 @@ def sameButSps (a b : St) : Prop :=
 
 /-- an event that is neither a transaction end nor a savepoint operation neither reads nor writes
 the savepoint stack -/
-theorem step_sps_frame (cfg : Cfg) (s : St) (l : List Db) (e : Ev)
+theorem step_sps_frame (cfg : Cfg) (s : St) (l : List (Db × Option Uow)) (e : Ev)
     (he : e.isEnd = false) (hs : e.isSp = false) :
     step cfg { s with sps := l } e = { step cfg s e with sps := l } := by
   cases e with
@@ -108,7 +111,7 @@ theorem step_sps_frame (cfg : Cfg) (s : St) (l : List Db) (e : Ev)
   | del cls pk vals => simp only [step, St.uowD]; split <;> rfl
   | assoc tbl op links => simp only [step, St.uowD]; split <;> rfl
 
-theorem run_sps_frame (cfg : Cfg) (s : St) (l : List Db) (body : List Ev)
+theorem run_sps_frame (cfg : Cfg) (s : St) (l : List (Db × Option Uow)) (body : List Ev)
     (hb : ∀ e ∈ body, e.isEnd = false ∧ e.isSp = false) :
     run cfg { s with sps := l } body = { run cfg s body with sps := l } := by
   induction body generalizing s with
@@ -125,34 +128,93 @@ theorem c06_savepoint_released (cfg : Cfg) (s : St) (body : List Ev)
     (run cfg s ([.spBegin] ++ body ++ [.spCommit])).sps = s.sps := by
   have h : run cfg s ([.spBegin] ++ body ++ [.spCommit]) = { run cfg s body with sps := s.sps } := by
     rw [run_append, run_append]
-    show step cfg (run cfg { s with sps := s.db :: s.sps } body) .spCommit = _
+    show step cfg (run cfg { s with sps := (s.db, s.uow) :: s.sps } body) .spCommit = _
     rw [run_sps_frame cfg s _ body hb]
     rfl
   rw [h]
   exact ⟨⟨rfl, rfl, rfl, rfl⟩, rfl⟩
+
+/-- what a rollback to a savepoint leaves of the unit of work: what it knew at SAVEPOINT, with an empty cache -/
+def uowAtSavepoint (u : Option Uow) : Option Uow := u.map (fun u => { u with vobjs := [], pending := [] })
+
+/-- the whole state after a rolled-back savepoint bracket: only the error flag is the body's -/
+theorem sp_rolled_back_eq (cfg : Cfg) (s : St) (body : List Ev)
+    (hb : ∀ e ∈ body, e.isEnd = false ∧ e.isSp = false) :
+    run cfg s ([.spBegin] ++ body ++ [.spRollback]) =
+      { run cfg s body with db := s.db, uow := uowAtSavepoint s.uow, sps := s.sps } := by
+  rw [run_append, run_append]
+  show step cfg (run cfg { s with sps := (s.db, s.uow) :: s.sps } body) .spRollback = _
+  rw [run_sps_frame cfg s _ body hb]
+  rfl
 
 /-- rolling a savepoint back restores every table, whatever was flushed inside it -/
 theorem c06_savepoint_db (cfg : Cfg) (s : St) (body : List Ev)
     (hb : ∀ e ∈ body, e.isEnd = false ∧ e.isSp = false) :
     (run cfg s ([.spBegin] ++ body ++ [.spRollback])).db = s.db ∧
     (run cfg s ([.spBegin] ++ body ++ [.spRollback])).sps = s.sps := by
-  have h : run cfg s ([.spBegin] ++ body ++ [.spRollback]) =
-      { run cfg s body with db := s.db, sps := s.sps } := by
-    rw [run_append, run_append]
-    show step cfg (run cfg { s with sps := s.db :: s.sps } body) .spRollback = _
-    rw [run_sps_frame cfg s _ body hb]
-    rfl
-  rw [h]
+  rw [sp_rolled_back_eq cfg s body hb]
   exact ⟨rfl, rfl⟩
 
-/-- a savepoint inside which nothing was flushed is discarded without any trace -/
-theorem c06_savepoint_no_flush (cfg : Cfg) (s : St) :
-    run cfg s [.spBegin, .spRollback] = s := by
+/- OLD STATEMENT (false since a savepoint rollback empties the version-object cache and the pending
+association statements):
+
+    theorem c06_savepoint_no_flush (cfg : Cfg) (s : St) :
+        run cfg s [.spBegin, .spRollback] = s
+
+Counterexample: `s := { uow := some { vobjs := [(0, [1], 1)] } }`: after `[.spBegin, .spRollback]`
+the unit of work is `some { vobjs := [] }` (`sp_no_flush_old_false`).  The closest true statement:
+everything is as before except that the unit of work is the one remembered at SAVEPOINT with an empty
+cache; and when the cache and the pending list were empty the state is exactly the one before
+(`sp_no_flush_clean`). -/
+/-- a savepoint inside which nothing was flushed is discarded without any trace but the emptied cache -/
+theorem c06_savepoint_no_flush_corrected (cfg : Cfg) (s : St) :
+    run cfg s [.spBegin, .spRollback] = { s with uow := uowAtSavepoint s.uow } := by
   cases s; rfl
 
-/-- F-SP (b), formally: first versioned flush of the transaction inside a savepoint that is then
-rolled back: the unit of work still points at transaction 1, whose record is gone. -/
-theorem c06_savepoint_counterexample :
+theorem sp_no_flush_clean (cfg : Cfg) (s : St) (hv : s.uowD.vobjs = []) (hp : s.uowD.pending = []) :
+    run cfg s [.spBegin, .spRollback] = s := by
+  rw [c06_savepoint_no_flush_corrected]
+  cases s with
+  | mk db committed uow sps err =>
+    cases uow with
+    | none => rfl
+    | some u =>
+      cases u with
+      | mk cur ops vobjs pending =>
+        simp only [St.uowD, Option.getD_some] at hv hp
+        subst hv hp
+        rfl
+
+/-- the old statement of `c06_savepoint_no_flush` fails on a state with a non-empty cache -/
+theorem sp_no_flush_old_false :
+    ¬ ∀ (cfg : Cfg) (s : St), run cfg s [.spBegin, .spRollback] = s := by
+  intro h
+  have h1 := congrArg (fun s => s.uowD.vobjs) (h {} { uow := some { vobjs := [(0, [1], 1)] } })
+  exact absurd h1 (by decide)
+
+/-- **a rolled-back savepoint never happened** (whatever was flushed inside it): tables, committed snapshot
+and savepoint stack are those before the bracket, the unit of work is the one before the bracket with an
+empty cache (and no pending association statement).  The error flag is the body's (`sp_rolled_back_err`),
+which in this model is the one before the bracket too (`run_err` in `Lemmas/LinkLemmas.lean`). -/
+theorem c06_savepoint_rolled_back (cfg : Cfg) (s : St) (body : List Ev)
+    (hb : ∀ e ∈ body, e.isEnd = false ∧ e.isSp = false) :
+    let s' := run cfg s ([.spBegin] ++ body ++ [.spRollback])
+    s'.db = s.db ∧ s'.committed = s.committed ∧ s'.sps = s.sps ∧ s'.uow = uowAtSavepoint s.uow := by
+  intro s'
+  have h : s' = { run cfg s body with db := s.db, uow := uowAtSavepoint s.uow, sps := s.sps } :=
+    sp_rolled_back_eq cfg s body hb
+  rw [h]
+  exact ⟨rfl, run_committed (fun e he => (hb e he).1), rfl, rfl⟩
+
+/-- the error flag after the bracket is the one the body alone produces (association duplicates) -/
+theorem sp_rolled_back_err (cfg : Cfg) (s : St) (body : List Ev)
+    (hb : ∀ e ∈ body, e.isEnd = false ∧ e.isSp = false) :
+    (run cfg s ([.spBegin] ++ body ++ [.spRollback])).err = (run cfg s body).err := by
+  rw [sp_rolled_back_eq cfg s body hb]
+
+/-- the old counterexample history, now harmless: first versioned flush inside a savepoint that is rolled
+back (before the repair the unit of work kept pointing at transaction 1, whose record was gone) -/
+theorem c06_savepoint_fixed_example :
     let cls : ClassCfg :=
       { versioned := true, ncols := 1, excl := [false], incl := [false], rels := [],
         tables := [(0, [some 0])] }
@@ -162,7 +224,7 @@ theorem c06_savepoint_counterexample :
     let evs : List Ev := [.spBegin, .beforeFlush [view] 1 false, .ins 0 [1] [some 5] [true],
                           .afterFlush, .spRollback]
     let s := run cfg {} evs
-    s.uowD.cur = some 1 ∧ s.db.txs = [] ∧ s.db.versions = [] ∧ s.uowD.vobjs = [(0, [1], 1)] := by
+    s.uow = none ∧ s.db.txs = [] ∧ s.db.versions = [] := by
   decide
 
 end Continuum
